@@ -33,7 +33,7 @@ package statecache
 
 // A transaction's writes and removals touch only its own map.
 //@ func (*TransactionCache).Set(tc, key, e)
-//@   props C07
+//@   props C07 C06
 //@   mode wrap
 //@   requires TxnWF(tc) && e != nil
 //@   assigns mapof(tc.cache)
@@ -42,7 +42,7 @@ package statecache
 //@   ensures TxnWF(tc)
 
 //@ func (*TransactionCache).Remove(tc, key)
-//@   props C07
+//@   props C07 C06
 //@   mode wrap
 //@   requires TxnWF(tc)
 //@   assigns mapof(tc.cache)
@@ -63,7 +63,7 @@ package statecache
 // Commit hands every pending entry to the block cache (which stores a copy) and empties the map.
 //@ func (*TransactionCache).Commit(tc)
 //@   locals (key, value)
-//@   props C07
+//@   props C07 C06
 //@   mode wrap
 //@   requires TxnWF(tc) && tc.main is *BlockCache
 //@   ensures len(tc.cache) == 0                                                                                              #emptied
@@ -73,7 +73,7 @@ package statecache
 
 // A block's writes touch only its own pending map.
 //@ func (*BlockCache).Set(pcc, key, e)
-//@   props C07
+//@   props C07 C06
 //@   mode wrap
 //@   requires pcc.cache != nil && e != nil
 //@   assigns mapof(pcc.cache)
@@ -81,7 +81,7 @@ package statecache
 //@   ensures forall k string :: k != key ==> (k in pcc.cache) == old(k in pcc.cache) && pcc.cache[k] == old(pcc.cache[k])   #other-keys-untouched
 
 //@ func (*BlockCache).setValue(pcc, key, v)
-//@   props C07
+//@   props C07 C06
 //@   mode wrap
 //@   requires pcc.cache != nil && v.data != nil
 //@   assigns mapof(pcc.cache)
@@ -89,7 +89,7 @@ package statecache
 //@   ensures forall k string :: k != key ==> (k in pcc.cache) == old(k in pcc.cache) && pcc.cache[k] == old(pcc.cache[k])   #other-keys-untouched
 
 //@ func (*BlockCache).remove(pcc, key)
-//@   props C07
+//@   props C07 C06
 //@   mode wrap
 //@   requires pcc.cache != nil
 //@   assigns mapof(pcc.cache)
@@ -163,6 +163,6 @@ package statecache
 //@      | && (bc.cache[key].data != nil ==> Copy(LruVal[LruVal[sc.cache][iface(key)].(*lru.Cache)][iface(bc.blockHash)].(valueNode).data, bc.cache[key].data))      #entry-committed-as-copy
 
 //@ func (*BlockCache).Commit(pcc)
-//@   props C07
+//@   props C07 C06
 //@   mode wrap
 //@   requires BlockWF(pcc)
